@@ -30,12 +30,13 @@ pub fn main(tier: &str, seed: u64, n_override: Option<u64>) {
         let k = Constraints::new(from, to, BY_PREV);
         let mut lo = [f64::INFINITY; 6]; let mut hi = [f64::NEG_INFINITY; 6];
         let mut bad = 0u64; let mut first_bad = [0.0; 6]; let mut panicked = String::new();
-        let mut self_bad = 0u64;
+        let mut self_bad = 0u64; let mut draw0: Option<([f64; 6], bool)> = None;
         for _ in 0..draws {
             match guarded(std::panic::AssertUnwindSafe(|| k.random_angles())) {
                 Err(m) => { panicked = m; break; }
                 Ok(a) => {
                     for i in 0..6 { lo[i] = lo[i].min(a[i]); hi[i] = hi[i].max(a[i]); }
+                    if draw0.is_none() { draw0 = Some((a, k.compliant(&a))); }
                     let ok = (0..6).all(|i| on_arc(from[i], to[i], a[i], 1e-9) != Some(false));
                     if !ok { if bad == 0 { first_bad = a; } bad += 1; }
                     // a draw strictly inside every arc (by the independent arc test) must also be accepted by the constraints themselves
@@ -48,7 +49,7 @@ pub fn main(tier: &str, seed: u64, n_override: Option<u64>) {
         else if bad > 0 { direct = "fail"; class = "C18.sample_outside_arc"; }
         else if self_bad > 0 { direct = "fail"; class = "C18.sample_rejected_by_compliant"; }
         println!("{}", Obj::new().s("prop", "C18").i("case", idx as i64).fs("from", &from).fs("to", &to).i("draws", draws)
-            .fs("lo", &lo).fs("hi", &hi).i("bad", bad as i64).i("self_bad", self_bad as i64).fs("first_bad", &first_bad).s("panic", &panicked)
+            .fs("lo", &lo).fs("hi", &hi).i("bad", bad as i64).i("self_bad", self_bad as i64).fs("first_bad", &first_bad).fs("draw", &draw0.map(|d| d.0).unwrap_or([0.0; 6])).b("draw_ok", draw0.map(|d| d.1).unwrap_or(true)).s("panic", &panicked)
             .s("direct", direct).s("class", class).done());
     }
 }
